@@ -213,6 +213,11 @@ def padding_rule(F, G, rep):
     fors = outer + inner_fors
     ok = len(lens) == 1 and len(outer) == 1 and all(any(x is f for x in tir.walk(outer[0]["body"])) for f in inner_fors)
     rep.ob("padding.all-ports", ok, fn, "loop", "frame_close must iterate every port of frames.ports with the frame count captured once")
+    # .. and that count is the number of frames opened so far: mutable::Frame::len() is the id column's length
+    lb = F.body("frame::mutable::Frame::len")
+    lv = L.strip_try(lb["tir"]["value"]) if lb is not None else {}
+    rep.ob("padding.bound", lv.get("k") == "MethodCall" and lv["method"] == "len" and not lv.get("args") and tir.place(lv["recv"]) == "self.id", "frame::mutable::Frame::len", "len",
+           "the padding bound frames.len() must be the length of the id column (one entry per opened frame); got %s" % tir.pretty(lv)[:100])
     # padding is unconditional: no early return, and the loop is not nested under a condition
     par = safety.parents(root)
     rets = [n for n in tir.walk(root) if n.get("k") == "Ret"]
